@@ -458,3 +458,7 @@ _quick("C11", "C11_interleaved", "a counter key of capacity 5: holder A set it w
 _quick("C17", "C01_slowmap", "(also under C01) a held key whose manager lives in the ordinary key map, or shares one of 4 fast slots with a neighbour that is moved again: the key stays findable — the holder's unlock is accepted (reply LCount exact), a second request is refused, nothing is lost from the key table", ["-witness", "1"])
 
 _quick("C15", "C15_textttl", "every program of 3 Redis-style commands over a string key and a counter key out of {SET, SET .. EX 5, SETEX, APPEND, EXPIRE 5, PERSIST, INCR, DECR, INCRBY, DECRBY, EXPIRE 5, PERSIST}, then 8 s through the real sweeps: SET / SETEX / EXPIRE / PERSIST set the time to live, the other writers keep it; EXISTS afterwards answers as a plain key-value store", ["-witness", "20"], reach=["end", "kept", "expired"])
+
+_KEEPALIVE = "a request with the keep-alive flag and T = 3 s queued behind a holder that stays; its requester is a binary connection that stays open / a binary connection closed one second later / the stream-less in-process protocol; 12 s through the real sweeps: without a live connection behind it the request ends with TIMEOUT within [T, T+2 s], WaitCount 0, nothing left queued"
+_quick("C18", "C18_keepalive", _KEEPALIVE, ["-witness", "1"], reach=["end", "closed", "alive"])
+_quick("C05", "C18_keepalive", "(also under C18) " + _KEEPALIVE, ["-witness", "1"], reach=["end"])
